@@ -1,32 +1,55 @@
 import FsDb.Proofs.ConcFrame
-import FsDb.Proofs.Refine
+import FsDb.Proofs.MultiDb
 /-! Basic facts for the small-step concurrency proof: the ghost specification state of a log, how
     the shared-state sub-steps commute with the ghost extension of the deletion queue, and how the
     refinement relation `R` survives each kind of shared-state transition. -/
 namespace FsDb.Conc
 open FsDb Sys Spec
 
-def linOps (l : List (Nat × Op × Out)) : List Op := l.map (·.2.1)
-def linOuts (l : List (Nat × Op × Out)) : List Out := l.map (·.2.2)
+def linOps (l : List (Nat × EOp × Out)) : List EOp := l.map (·.2.1)
+/-- the answers logged with the operations (a counter advance has none) -/
+def linOuts (l : List (Nat × EOp × Out)) : List Out :=
+  l.filterMap (fun e => match e.2.1 with | .op _ => some e.2.2 | .tick _ => none)
 
-/-- the specification state after the first `n` entries of the log -/
-def specAt (σ : St) (n : Nat) : State := (Spec.run {} (linOps (σ.lin.take n))).1
+/-- the specification state after the first `n` entries of the log (the specification's clock
+    follows the counter advances of the log; `Proofs/MultiDb`: they are invisible) -/
+def specAt (σ : St) (n : Nat) : State := (Spec.erun {} (linOps (σ.lin.take n))).1
 /-- the specification state after the whole log -/
-def specOf (σ : St) : State := (Spec.run {} (linOps σ.lin)).1
+def specOf (σ : St) : State := (Spec.erun {} (linOps σ.lin)).1
 
 /-- the shared state with the jobs in execution put back into the deletion queue (ghost) -/
 def withB (b : List (List Ver)) (s : Sys) : Sys := { s with pending := b ++ s.pending }
 def withBusy (σ : St) : Sys := withB (σ.busy.map (·.2)) σ.sys
 
-theorem spec_run_append (s : State) (a : List Op) (op : Op) :
-    (Spec.run s (a ++ [op])).1 = (Spec.step (Spec.run s a).1 op).1 ∧
-    (Spec.run s (a ++ [op])).2 = (Spec.run s a).2 ++ [(Spec.step (Spec.run s a).1 op).2] := by
+theorem spec_erun_append (s : State) (a : List EOp) (op : Op) :
+    (Spec.erun s (a ++ [.op op])).1 = (Spec.step (Spec.erun s a).1 op).1 ∧
+    (Spec.erun s (a ++ [.op op])).2 = (Spec.erun s a).2 ++ [(Spec.step (Spec.erun s a).1 op).2] := by
   induction a generalizing s with
   | nil => exact ⟨rfl, rfl⟩
   | cons x a ih =>
-    simp only [List.cons_append, Spec.run]
-    have := ih (Spec.step s x).1
-    exact ⟨this.1, by rw [this.2]⟩
+    cases x with
+    | op o =>
+      simp only [List.cons_append, Spec.erun]
+      have := ih (Spec.step s o).1
+      exact ⟨this.1, by rw [this.2]⟩
+    | tick n =>
+      simp only [List.cons_append, Spec.erun]
+      exact ih (Spec.tick s n)
+
+theorem spec_erun_append_tick (s : State) (a : List EOp) (n : Nat) :
+    (Spec.erun s (a ++ [.tick n])).1 = Spec.tick (Spec.erun s a).1 n ∧
+    (Spec.erun s (a ++ [.tick n])).2 = (Spec.erun s a).2 := by
+  induction a generalizing s with
+  | nil => exact ⟨rfl, rfl⟩
+  | cons x a ih =>
+    cases x with
+    | op o =>
+      simp only [List.cons_append, Spec.erun]
+      have := ih (Spec.step s o).1
+      exact ⟨this.1, by rw [this.2]⟩
+    | tick m =>
+      simp only [List.cons_append, Spec.erun]
+      exact ih (Spec.tick s m)
 
 theorem specAt_length (σ : St) : specAt σ σ.lin.length = specOf σ := by
   simp [specAt, specOf]
@@ -153,6 +176,11 @@ theorem withB_gcDraw : gcDraw (withB b s) = withB b (gcDraw s) := by
   split <;> rfl
 
 theorem withB_gcHz : gcHz (withB b s) = gcHz s := rfl
+theorem withB_gcHzX (cl : List Nat) : gcHzX (withB b s) cl = gcHzX s cl := rfl
+theorem withB_gcDrawX (cl : List Nat) : gcDrawX (withB b s) cl = withB b (gcDrawX s cl) := by
+  unfold gcDrawX liveReg
+  simp only [withB_reg]
+  split <;> rfl
 theorem withB_delsAt (hz : Nat) : delsAt (withB b s) hz = delsAt s hz := rfl
 theorem withB_collectAt (hz : Nat) : collectAt (withB b s) hz = withB b (collectAt s hz) := rfl
 
@@ -165,9 +193,9 @@ end withB
 
 /-! ### `R` under changes of the deletion queue only -/
 
-theorem _root_.FsDb.R.pendingChange {c : Sys} {s : State} (h : R c s) (p : List (List Ver))
+theorem _root_.FsDb.Rx.pendingChange {c : Sys} {s : State} {cl : List Nat} (h : Rx cl c s) (p : List (List Ver))
     (hp : ∀ job ∈ p, ∀ v ∈ job, (∀ k, ∀ w ∈ c.all k, w.cid ≠ v.cid) ∧ v.cid < c.nextCid) :
-    R { c with pending := p } s := by
+    Rx cl { c with pending := p } s := by
   have i := h.inv
   have i' : Inv { c with pending := p } :=
     ⟨i.mainSorted, i.txSorted, i.allSorted, i.allMem, i.bounds, i.cidUnique, i.regIds, i.regMain,
@@ -176,8 +204,33 @@ theorem _root_.FsDb.R.pendingChange {c : Sys} {s : State} (h : R c s) (p : List 
       i.domNodup, i.tagMain, i.tagTx⟩
   exact h.transfer i' rfl rfl rfl rfl rfl
 
-theorem _root_.FsDb.R.pendingSub {c : Sys} {s : State} (h : R c s) (p : List (List Ver))
-    (hp : ∀ job ∈ p, job ∈ c.pending) : R { c with pending := p } s :=
+theorem _root_.FsDb.Rx.pendingSub {c : Sys} {s : State} {cl : List Nat} (h : Rx cl c s) (p : List (List Ver))
+    (hp : ∀ job ∈ p, job ∈ c.pending) : Rx cl { c with pending := p } s :=
   h.pendingChange p (fun job hj v hv => ⟨h.inv.pendDead job (hp job hj) v hv, h.inv.pendBound job (hp job hj) v hv⟩)
+
+/-! ### `Rx` under changes of the set of transactions inside Commit / Rollback -/
+
+/-- one more transaction stops reading: the relation only gets weaker -/
+theorem _root_.FsDb.Rx.closing_add {c : Sys} {s : State} {cl : List Nat} (h : Rx cl c s) (t : Nat) :
+    Rx (t :: cl) c s := by
+  refine ⟨h.inv, h.clock, h.dom, h.reg, h.own, ?_, h.histDom⟩
+  intro k
+  obtain ⟨pre, h1, h2, h3⟩ := h.hist k
+  refine ⟨pre, h1, h2, ?_⟩
+  intro hp
+  obtain ⟨hd, hh, hlt⟩ := h3 hp
+  exact ⟨hd, hh, fun r hr hrc => hlt r hr (fun hin => hrc (List.mem_cons_of_mem _ hin))⟩
+
+/-- a transaction that is no longer registered may leave the set -/
+theorem _root_.FsDb.Rx.closing_erase {c : Sys} {s : State} {cl : List Nat} (h : Rx cl c s) (t : Nat)
+    (hreg : ∀ r ∈ c.reg, r.id ≠ t) : Rx (cl.filter (· ≠ t)) c s := by
+  refine ⟨h.inv, h.clock, h.dom, h.reg, h.own, ?_, h.histDom⟩
+  intro k
+  obtain ⟨pre, h1, h2, h3⟩ := h.hist k
+  refine ⟨pre, h1, h2, ?_⟩
+  intro hp
+  obtain ⟨hd, hh, hlt⟩ := h3 hp
+  refine ⟨hd, hh, fun r hr hrc => hlt r hr (fun hin => hrc ?_)⟩
+  exact List.mem_filter.mpr ⟨hin, by simpa using hreg r hr⟩
 
 end FsDb.Conc
